@@ -1035,6 +1035,21 @@ class Body:
                         if kind == "assign" and payload["rv"] == "ref" and payload.get("bk") == "mut" and payload["pl"]["p"] == ["*"] and payload["pl"]["l"] in refof:
                             refof[l] = refof[payload["pl"]["l"]]
                             changed = True
+                        elif kind == "assign" and len(lst) == 1 and payload["rv"] == "use" and payload["op"].get("k") in ("move", "copy") and not payload["op"]["pl"]["p"] and payload["op"]["pl"]["l"] in refof:
+                            # the reference handed on (the parameter of a helper spliced into this body)
+                            refof[l] = refof[payload["op"]["pl"]["l"]]
+                            changed = True
+            # a store through such a reference — `*p = v` with p = &mut x, x a scalar — is a definition of x
+            # (a spliced helper that advances an offset through `&mut usize`)
+            for l, lst in list(part.items()):
+                if l not in refof or len(d.get(l, [])) != 1:
+                    continue
+                tgt = refof[l]
+                if self.locals[tgt]["ty"] not in ("u8", "u16", "u32", "u64", "usize", "i32", "i64", "bool"):
+                    continue
+                for site, st in lst:
+                    if st.get("s") == "assign" and st["pl"]["p"] == ["*"]:
+                        d[tgt].append((site, "assign", st["rv"]))
             for site, st in self.sites(normal_only=False):
                 if site.i is None and st["t"] == "call":
                     for ai, a in enumerate(st["args"]):
